@@ -310,6 +310,31 @@ def malformed_spec_stage(c):
         answers.append(['raised', type(e).__name__])
     c.traces += 1
     c.count(1, ('malformed-spec', backend), kind='fault:malformed-spec')
+    # ... and the early-stopping check of a trial of that study (a trial added by the user, handed to a worker from
+    # the REQUESTED pool without any algorithm call): it cannot build its request either, and must not leave the
+    # trial's early-stopping record ACTIVE
+    es_answers = []
+    try:
+      sv2 = vizier_service.VizierServicer(database_url=url)
+      study2 = sv2.CreateStudy(vsp.CreateStudyRequest(parent='owners/o', study=study_pb2.Study(display_name='bad2', study_spec=spec)))
+      t = sv2.CreateTrial(vsp.CreateTrialRequest(parent=study2.name, trial=study_pb2.Trial()))
+      sv2.SuggestTrials(vsp.SuggestTrialsRequest(parent=study2.name, suggestion_count=1, client_id='w'))
+      for _ in range(3):
+        try:
+          r = sv2.CheckTrialEarlyStoppingState(vsp.CheckTrialEarlyStoppingStateRequest(trial_name=t.name))
+          es_answers.append(['answer', bool(r.should_stop)])
+        except Exception as e:  # pylint: disable=broad-except
+          es_answers.append(['raised', type(e).__name__])
+      from vizier._src.service import resources as _res
+      rec = sv2.datastore.get_early_stopping_operation(_res.TrialResource.from_name(t.name).early_stopping_operation_resource.name)
+      from vizier._src.service import vizier_oss_pb2
+      if rec.status == vizier_oss_pb2.EarlyStoppingOperation.Status.ACTIVE:
+        c.prop_fail('earlystop-record-left-active:malformed-study-spec',
+                    'on a study whose stored spec cannot be converted, CheckTrialEarlyStoppingState answered %s and left the trial\'s early-stopping record ACTIVE: every later check is answered from it (backend %s)' % (es_answers, backend),
+                    {'backend': backend, 'history': 'CreateStudy(spec with a parameter without value spec); CreateTrial; SuggestTrials(w); 3 x CheckTrialEarlyStoppingState', 'answers': es_answers})
+    except KeyError:
+      pass      # no record was created at all
+    c.traces += 1
     pending = [a for a in answers if a[0] == 'op' and not a[2]]
     if pending:
       c.prop_fail('operation-left-pending:malformed-study-spec',
